@@ -20,8 +20,8 @@ ASSUMPTIONS = [
     "in-situ: the reference vectors are passed explicitly so that the harness knows which operand is the reference",
 ]
 MIN_NONTRIVIAL = {"quick": 300, "thorough": 3000}
-REQUIRED = {"quick": {"plans_direct": 600, "plans_in_situ": 150, "contract_evaluations": 150, "orientation_checks": 150, "certified_optimal": 600},
-            "thorough": {"plans_direct": 8000, "plans_in_situ": 1500, "contract_evaluations": 1500, "orientation_checks": 1500, "certified_optimal": 8000}}
+REQUIRED = {"quick": {"plans_beyond_65536_arcs": 4, "plans_direct": 600, "plans_in_situ": 150, "contract_evaluations": 150, "orientation_checks": 150, "certified_optimal": 600},
+            "thorough": {"plans_beyond_65536_arcs": 30, "plans_direct": 8000, "plans_in_situ": 1500, "contract_evaluations": 1500, "orientation_checks": 1500, "certified_optimal": 8000}}
 
 
 def plan(tier, seed):
@@ -50,7 +50,7 @@ def gen_problem(r, big):
     sp, sq = sum(p), sum(q)
     p = [x / sp for x in p]
     q = [x / sq for x in q]
-    kind = r.choice(["cont", "cont", "int", "zeros", "rank1", "metric", "const"])
+    kind = r.choice(["cont", "cont", "int", "zeros", "rank1", "metric", "const", "allzero"])
     if kind == "cont":
         C = [[r.random() for _ in range(m)] for _ in range(n)]
     elif kind == "int":
@@ -63,9 +63,22 @@ def gen_problem(r, big):
     elif kind == "metric":
         x, y = [r.uniform(-1, 1) for _ in range(n)], [r.uniform(-1, 1) for _ in range(m)]
         C = [[abs(x[i] - y[j]) for j in range(m)] for i in range(n)]
+    elif kind == "allzero":
+        C = [[0.0] * m for _ in range(n)]
     else:
         C = [[0.5] * m for _ in range(n)]
     return {"p": p, "q": q, "C": C, "order": r.choice(["C", "F", "T"]), "kind": kind, "shape": shape}
+
+
+def gen_big(r):
+    """More than 2^16 arcs (index arithmetic of the arc <-> cell mapping)."""
+    n, m = r.choice([(257, 256), (300, 300), (64, 1100), (1030, 64)])
+    rs = np.random.RandomState(r.randrange(10**6))
+    p = rs.dirichlet(np.ones(n))
+    q = rs.dirichlet(np.ones(m))
+    x, y = rs.rand(n, 2), rs.rand(m, 2)
+    C = np.sqrt(((x[:, None, :] - y[None, :, :]) ** 2).sum(-1))
+    return {"p": p.tolist(), "q": q.tolist(), "C": np.round(C, 6).tolist(), "order": "C", "kind": "metric-big", "shape": "%dx%d" % (n, m)}
 
 
 def judge(ctx, where, p, q, C, P, case, sigextra=None):
@@ -125,7 +138,7 @@ def check_direct(ctx, c):
         return
     if judge(ctx, "direct", p0, q0, C0, P, c, sig):
         n, m = C.shape
-        ctx.ok(sig, n >= 2 and m >= 2 and c["kind"] != "const")
+        ctx.ok(sig, n >= 2 and m >= 2 and c["kind"] not in ("const", "allzero"))
         if ctx.mode == "JIT" and n * m <= 36:
             ctx.result("plan:%s" % sig, {"cost": round(float((np.asarray(P) * C0).sum()), 9)})
 
@@ -231,6 +244,11 @@ def check_insitu(ctx, c):
 
 def run_direct(ctx):
     n = ctx.pick(900, 9000) if ctx.mode == "JIT" else ctx.pick(600, 6000)
+    if ctx.mode == "JIT":
+        for i in ctx.indices(ctx.pick(6, 40)):
+            c = gen_big(ctx.rng("big", i))
+            ctx.count("plans_beyond_65536_arcs")
+            check_direct(ctx, c)
     for i in ctx.indices(n):
         c = gen_problem(ctx.rng(i), big=(not ctx.quick and ctx.mode == "JIT" and i % 3 == 0))
         if i < 2:
